@@ -102,8 +102,53 @@ fn c06_c11_hybrid(case: &Case) {
             sweep[e.a as usize] = Some((e.b as u32, 1));
         }
     }
-    let log = crate::memscn::MemLog { oplog: oplog.clone(), sweep, ..Default::default() };
+    let log = crate::memscn::MemLog { oplog: oplog.clone(), sweep: sweep.clone(), ..Default::default() };
     crate::memoracle::check(case, &log, &evs);
+    if case.property == "C11" {
+        // hybrid-only clause: the "older in-flight fetch" may also be a disk lookup that brings back the version the
+        // key had BEFORE the round (from the disk or from the disk tier's write queue). Once the explicit insert has
+        // returned - and nobody removes or re-inserts the key afterwards - no lookup that starts later may see it.
+        for r in oplog.iter().filter(|r| r.client > 0) {
+            let Op::Insert { k, ver, .. } = &r.op else { continue };
+            // an on-disk advised value is resident nowhere between the return of insert() and the drop of the last
+            // handle to it (the waiters hold some); a lookup in that gap reads the disk as it was. That is not an older
+            // fetch replacing the insert, so only keys whose inserted value is memory resident are judged here.
+            if crate::hybscn::key_class(case, *k) != 0 {
+                continue;
+            }
+            let later_update = oplog.iter().any(|q| q.inv > r.inv && (q.client, q.idx) != (r.client, r.idx) && matches!(&q.op, Op::Insert { k: kk, .. } | Op::Remove { k: kk } if kk == k));
+            if later_update {
+                continue;
+            }
+            let before: Vec<u32> = oplog.iter().filter(|q| q.client == 0).filter_map(|q| if let Op::Insert { k: kk, ver, .. } = &q.op { (kk == k).then_some(*ver) } else { None }).collect();
+            if before.is_empty() {
+                continue;
+            }
+            hist::probe("c11_hybrid_older_disk_version_checked");
+            for q in oplog.iter().filter(|q| q.client > 0 && q.inv > r.ret) {
+                if q.res.tag == Res::HIT && q.res.key == *k && before.contains(&q.res.ver) {
+                    hist::violation(
+                        "C11",
+                        "older-disk-version-replaced-insert",
+                        format!("insert({k},v{ver}) returned at {}; {:?} by client {} started at {} and returned v{}, the version the key had on disk before the round", r.ret, q.op, q.client, q.inv, q.res.ver),
+                        &[],
+                    );
+                    return;
+                }
+            }
+            if let Some(Some((v, _))) = sweep.get(*k as usize) {
+                if before.contains(v) {
+                    hist::violation(
+                        "C11",
+                        "older-disk-version-replaced-insert",
+                        format!("insert({k},v{ver}) returned at {} and nothing updated the key afterwards; at the end a lookup returns v{v}, the version the key had on disk before the round", r.ret),
+                        &[],
+                    );
+                    return;
+                }
+            }
+        }
+    }
     if case.property != "C06" {
         return;
     }
